@@ -102,13 +102,14 @@ Proof.
     + rewrite nth_error_set_nth_neq in Hn by auto. auto.
 Qed.
 
-Lemma handle_result_V : forall w a v w1 ok, winvV w -> lexp w a v -> handle_result w a v = (w1, ok) ->
+Lemma handle_result_V : forall w a v w1 ok, winvV w -> (a_w a = me w -> lexp w a v) -> handle_result w a v = (w1, ok) ->
   winvV w1 /\ ext w w1 /\ w_counter w1 = w_counter w /\ w_tasks w1 = w_tasks w /\ w_out w1 = w_out w /\
   w_delayed w1 = w_delayed w /\ w_log w1 = w_log w /\ w_pc w1 = w_pc w /\ w_id w1 = w_id w.
 Proof.
-  intros w a v w1 ok I L H. unfold handle_result in H.
-  destruct (negb (dest_eqb (a_w a) (me w))).
-  { injection H as <- <-. split; [eapply winvV_same; [| | | | |exact I]; reflexivity|]. split; [apply ext_same; reflexivity|]. repeat split. }
+  intros w a v w1 ok I L0 H. unfold handle_result in H.
+  destruct (dest_eqb (a_w a) (me w)) eqn:Eme; cbn [negb] in H.
+  2:{ injection H as <- <-. split; [eapply winvV_same; [| | | | |exact I]; reflexivity|]. split; [apply ext_same; reflexivity|]. repeat split. }
+  apply dest_eqb_eq in Eme. pose proof (L0 Eme) as L.
   destruct (box_get (a_box a) (w_boxes w)) as [b|] eqn:Eb.
   2:{ injection H as <- <-. split; [eapply winvV_same; [| | | | |exact I]; reflexivity|]. split; [apply ext_same; reflexivity|]. repeat split. }
   destruct (deposit b (a_slot a) v) as [b1 ok1] eqn:Edep.
@@ -136,4 +137,125 @@ Proof.
       * eapply ext_trans; [exact E1|]. apply (ext_box_set (put w1' d) (a_box a) (b_set_dest b1 None) b1); auto.
       * repeat split.
   - injection H as <- <-. split; [exact I1|]. split; [exact E1|]. repeat split.
+Qed.
+
+Definition msg_res (m : msg) : list (addr * val) := match m with MResult a v _ => [(a, v)] | _ => [] end.
+Definition chan_res (q : list msg) : list (addr * val) := flat_map msg_res q.
+Lemma chan_res_app : forall q1 q2, chan_res (q1 ++ q2) = chan_res q1 ++ chan_res q2.
+Proof. intros. apply flat_map_app. Qed.
+Lemma cancel_msgs_res : forall w m n i, chan_res (cancel_msgs w m i n) = [].
+Proof. induction n; simpl; intros; auto. Qed.
+
+(* facts every sub-step of the main thread preserves about the parts it does not own *)
+Definition frameV (w w' : wstate) : Prop :=
+  w_id w' = w_id w /\ w_counter w' = w_counter w /\ w_tasks w' = w_tasks w /\ w_delayed w' = w_delayed w /\
+  w_log w' = w_log w /\ w_pc w' = w_pc w /\
+  chan_tasks (w_out w') = chan_tasks (w_out w) /\ chan_res (w_out w') = chan_res (w_out w).
+
+Lemma frameV_trans : forall a b c, frameV a b -> frameV b c -> frameV a c.
+Proof. unfold frameV. intros a b c (A1&A2&A3&A4&A5&A6&A7&A8) (B1&B2&B3&B4&B5&B6&B7&B8). repeat split; congruence. Qed.
+
+Lemma close_boxes_V : forall owned skip w w1 ok, winvV w -> close_boxes owned skip w = (w1, ok) ->
+  winvV w1 /\ ext w w1 /\ frameV w w1.
+Proof.
+  induction owned as [|m r IH]; simpl; intros skip w w1 ok I H.
+  - injection H as <- <-. split; auto. split; [apply ext_refl|]. repeat split.
+  - destruct skip; [eapply IH; eauto|].
+    destruct (box_get m (w_boxes w)) as [b|] eqn:Eb.
+    2:{ injection H as <- <-. split; [eapply winvV_same; [| | | | |exact I]; reflexivity|].
+        split; [apply ext_same; reflexivity|]. repeat split. }
+    destruct (b_ready b).
+    + apply IH in H; [|apply winvV_box_del; auto]. destruct H as (I1 & E1 & F1).
+      split; auto. split; [eapply ext_trans; [apply ext_box_del; apply (V_keys w I)|exact E1]|].
+      eapply frameV_trans; [|exact F1]. repeat split.
+    + apply IH in H.
+      * destruct H as (I1 & E1 & F1). split; auto.
+        split; [eapply ext_trans; [|exact E1]; apply (ext_trans _ (set_boxes w (box_del m (w_boxes w)))); [apply ext_box_del; apply (V_keys w I)|apply ext_same; reflexivity]|].
+        eapply frameV_trans; [|exact F1]. repeat split; simpl.
+        -- rewrite chan_tasks_app, cancel_msgs_tasks. apply app_nil_r.
+        -- rewrite chan_res_app, cancel_msgs_res. apply app_nil_r.
+      * eapply winvV_same; [| | | | |apply (winvV_box_del w m I)]; reflexivity.
+Qed.
+
+Inductive sv_spec (w : wstate) (t : task) : sendval -> Prop :=
+| sv_none : t_desired t = None -> sv_spec w t SNone
+| sv_full : forall m b, t_desired t = Some m -> t_won t = false -> box_get m (w_boxes w) = Some b ->
+    sv_spec w t (SFull m (b_result b))
+| sv_batch : forall m b fr, t_desired t = Some m -> t_won t = true -> box_get m (w_boxes w) = Some b ->
+    b_fresh b = Some fr -> sv_spec w t (SBatch m fr).
+
+Definition same_task_but_owned (t t1 : task) : Prop :=
+  t_addr t1 = t_addr t /\ t_comp t1 = t_comp t /\ t_script t1 = t_script t /\ t_rest t1 = t_rest t /\
+  t_futs t1 = t_futs t /\ t_pend t1 = t_pend t /\ t_cnt t1 = t_cnt t /\ t_desired t1 = t_desired t /\ t_won t1 = t_won t.
+
+Lemma desired_result_V : forall w t w1 t1 sv, winvV w -> desired_result w t = inl (w1, t1, sv) ->
+  winvV w1 /\ ext w w1 /\ frameV w w1 /\ w_out w1 = w_out w /\ same_task_but_owned t t1 /\ sv_spec w t sv.
+Proof.
+  intros w t w1 t1 sv I H. unfold desired_result in H.
+  destruct (t_desired t) as [m|] eqn:Ed.
+  2:{ injection H as <- <- <-. split; auto. split; [apply ext_refl|]. split; [repeat split|]. split; auto.
+      split; [repeat split; auto|]. constructor. auto. }
+  destruct (box_get m (w_boxes w)) as [b|] eqn:Eb; [|discriminate].
+  destruct (t_won t) eqn:Ew.
+  - destruct (b_fresh b) as [fr|] eqn:Ef; [|discriminate]. injection H as <- <- <-.
+    assert (Hb : box_okV (b_set_fresh b (Some []))).
+    { destruct (V_boxes w I _ _ Eb) as (X1 & X2 & X3). repeat split; auto. simpl. intros fr' i v E. injection E as <-. simpl. tauto. }
+    split; [apply (winvV_box_set w m (b_set_fresh b (Some [])) b I Eb eq_refl Hb)|].
+    split; [apply (ext_box_set w m (b_set_fresh b (Some [])) b Eb eq_refl)|]. split; [repeat split|]. split; auto.
+    split; [repeat split; auto|]. eapply sv_batch; eauto.
+  - destruct (negb (b_ready b)); [discriminate|]. destruct (remove_first m (t_owned t)) as [ow|]; [|discriminate].
+    injection H as <- <- <-.
+    split; [apply winvV_box_del; auto|]. split; [apply ext_box_del; apply (V_keys w I)|]. split; [repeat split|]. split; auto.
+    split; [repeat split; auto|]. eapply sv_full; eauto.
+Qed.
+
+Lemma spec_box_expect : forall sp, b_expect (spec_box sp) = map ret_of (kids sp).
+Proof. destruct sp; reflexivity. Qed.
+Lemma spec_box_okV : forall sp, box_okV (spec_box sp).
+Proof. destruct sp; simpl; repeat split; simpl; intros; try discriminate; auto.
+  - destruct i; simpl in H; [discriminate|destruct i; discriminate].
+  - exfalso. revert i H. generalize (length cs). induction n; intros i H; destruct i; simpl in H; try discriminate. eauto. Qed.
+
+Lemma eff_tasks_In_full : forall me comp es c x, In x (eff_tasks me comp c es) ->
+  exists k sp j child, nth_error es k = Some sp /\ nth_error (kids sp) j = Some child /\
+                       x = new_task (mkAddr me (c + k) j) comp child.
+Proof. induction es as [|sp r IH]; simpl; intros; [tauto|]. apply in_app_or in H. destruct H.
+  - apply mk_children_In in H. destruct H as (_ & _ & _ & j & child & H1 & H2).
+    exists 0, sp, j, child. rewrite Nat.add_0_r. simpl. auto.
+  - apply IH in H. destruct H as (k & sp' & j & child & H1 & H2 & H3).
+    exists (S k), sp', j, child. rewrite Nat.add_succ_r. simpl. auto. Qed.
+
+Lemma apply_eff_V : forall w comp es, winvV w ->
+  let w' := apply_eff w comp es in
+  winvV w' /\ ext w w' /\
+  (forall k sp, nth_error es k = Some sp -> box_get (w_counter w + k) (w_boxes w') = Some (spec_box sp)).
+Proof.
+  intros w comp es I w'.
+  assert (Hnew : forall k sp, nth_error es k = Some sp -> box_get (w_counter w + k) (w_boxes w') = Some (spec_box sp)).
+  { intros k sp Hk. subst w'. simpl. rewrite box_get_app.
+    rewrite box_get_notkey.
+    - clear - Hk. revert k Hk. generalize (w_counter w). induction es as [|sp0 r IH]; intros c k Hk; destruct k; simpl in *; try discriminate.
+      + injection Hk as ->. rewrite Nat.add_0_r, Nat.eqb_refl. reflexivity.
+      + destruct (Nat.eqb c (c + S k)) eqn:E; [b2p; lia|]. rewrite <- Nat.add_succ_comm. apply IH. auto.
+    - intro Hin. apply (V_keys_lt w I) in Hin. lia. }
+  assert (E : ext w w').
+  { subst w'. split; [reflexivity|]. split; [simpl; lia|]. intros m b' Hb. simpl in Hb. rewrite box_get_app in Hb.
+    destruct (box_get m (w_boxes w)) eqn:E0.
+    - injection Hb as <-. left. eauto.
+    - apply box_get_eff_boxes in Hb. right. lia. }
+  split; [|split; auto].
+  destruct I as [K1 K2 K3 K4 K5 K6]. constructor.
+  - subst w'. simpl. unfold keys. rewrite map_app. fold (keys (w_boxes w)). fold (keys (eff_boxes (w_counter w) es)).
+    rewrite keys_eff_boxes. apply NoDup_app_intro; auto.
+    + apply seq_NoDup.
+    + intros x Hx Hx'. apply K2 in Hx. apply in_seq in Hx'. lia.
+  - subst w'. simpl. intros m Hm. unfold keys in Hm. rewrite map_app in Hm. apply in_app_or in Hm. destruct Hm as [Hm|Hm].
+    + apply K2 in Hm. lia.
+    + fold (keys (eff_boxes (w_counter w) es)) in Hm. rewrite keys_eff_boxes in Hm. apply in_seq in Hm. lia.
+  - subst w'. simpl. intros m b Hb. rewrite box_get_app in Hb. destruct (box_get m (w_boxes w)) eqn:E0.
+    + injection Hb as <-. eauto.
+    + apply box_get_eff_boxes in Hb. destruct Hb as (_ & sp & _ & ->). apply spec_box_okV.
+  - intros t Hin. eapply task_okV_ext; eauto.
+  - exact K5.
+  - exact K6.
 Qed.
